@@ -139,18 +139,19 @@ func roundHalfUp(x float64, digits int, verb byte, precision int) string {
 func builtinNumberToPrecision(call FunctionCall) Value {
 	// Will throw a TypeError if ThisObject is not a Number
 	this := call.thisClassObject(classNumberName).primitiveValue()
+	value := call.Argument(0)
+	if value.IsUndefined() { // 15.7.4.7 step 2
+		return stringValue(this.string())
+	}
+	// step 3: ToInteger(precision) precedes the NaN and infinity answers (steps 4-7)
+	precision := toIntegerFloat(value)
 	if this.IsNaN() {
 		return stringValue("NaN")
 	}
-	value := call.Argument(0)
-	if value.IsUndefined() {
-		return stringValue(this.string())
-	}
 	number := this.float64()
-	if math.IsInf(number, 0) { // 15.7.4.7 step 7 precedes the range check
+	if math.IsInf(number, 0) { // step 7 precedes the range check
 		return stringValue(floatToString(number, 64))
 	}
-	precision := toIntegerFloat(value)
 	if 1 > precision || 21 < precision {
 		panic(call.runtime.panicRangeError("toPrecision() precision must be between 1 and 21"))
 	}
